@@ -93,8 +93,8 @@ def gen_case(rng):
             # -- that class needs a dynamic stride on BOTH sides (two `?` compare equal); when the other side is a static tiled layout
             # the run-time pitch may be padded
             perm = list(range(rank))
-            if not padded_dyn_ok:
-                pad = 0
+            if not padded_dyn_ok and (dyn_meta or any(dyn[1:])):
+                pad = 0          # (only a dynamic outermost size: every stride stays static, the pitch may be padded)
             # dynamic strides where they depend on dynamic sizes (or all dynamic), dynamic or static offset
             offtxt = "?" if rng.random() < 0.6 else str(rng.choice(off_choices))
             st_static = conc_strides(dims)
